@@ -339,3 +339,59 @@ Theorem drop_of_a_live_socket_is_reported v s f p w :
   d11b_drop_via_fwd v = true -> p_drop p = Some (DTcp s f) ->
   mget SNone (w_sinks w) f = SFwd (Some (OTcp s)) -> run_drop v p w = tcp_packet_dropped v s p w.
 Proof. intros D P F. unfold run_drop. rewrite P, D, F. reflexivity. Qed.
+
+(* ---------------- C07 / C11: closing an acceptor resets its backlog ---------------- *)
+Lemma acc_abort_keeps_conns a clr w :
+  a_conns (get_tcp (fst (acc_abort_handlers a clr w)) a) = a_conns (get_tcp w a) /\
+  a_h (get_tcp (fst (acc_abort_handlers a clr w)) a) = None /\ a_h2 (get_tcp (fst (acc_abort_handlers a clr w)) a) = None.
+Proof.
+  unfold acc_abort_handlers, get_tcp, set_tcp. cbn [fst].
+  destruct (clr && _); cbn; rewrite mget_mset_eq; cbn; repeat split; reflexivity.
+Qed.
+
+Theorem closed_acceptor_has_no_backlog cx a w :
+  t_open (get_tcp w a) = false ->
+  a_conns (get_tcp (fst (acc_check_queue cx a w)) a) = [].
+Proof.
+  intros O. unfold acc_check_queue. rewrite O.
+  destruct (fold_left _ (a_conns (get_tcp w a)) (w, [])) as [w1 cs].
+  set (w2 := set_tcp w1 a _).
+  assert (E : a_conns (get_tcp w2 a) = []).
+  { subst w2. unfold get_tcp, set_tcp. cbn. rewrite mget_mset_eq. reflexivity. }
+  destruct (acc_abort_keeps_conns a true w2) as (K1 & K2 & K3).
+  destruct (acc_abort_handlers a true w2) as [w3 c]. cbn [fst] in *.
+  rewrite K2, K3. cbn [fst]. rewrite K1. exact E.
+Qed.
+
+Theorem acceptor_close_resets_the_backlog cx a w :
+  d6_close_clears (cv cx) = true -> d24_close_resets_backlog (cv cx) = true ->
+  a_conns (get_tcp (fst (acc_close cx a w)) a) = [].
+Proof.
+  intros D6 D24. unfold acc_close. rewrite D24.
+  assert (O : t_open (get_tcp (fst (acc_close0 cx a w)) a) = false).
+  { unfold acc_close0. destruct (acc_cancel a _) as [w1 c1].
+    pose proof (tcp_close_clears cx a w1 D6) as T. cbn zeta in T.
+    destruct (tcp_close cx a w1) as [w2 c2]. cbn [fst] in *. tauto. }
+  destruct (acc_close0 cx a w) as [w1 c]. cbn [fst] in O.
+  pose proof (closed_acceptor_has_no_backlog cx a w1 O) as K.
+  destruct (acc_check_queue cx a w1) as [w2 c3]. exact K.
+Qed.
+
+(* ---------------- C11: a socket has one name ---------------- *)
+Theorem second_bind_is_refused_udp v s e w :
+  d23_single_bind v = true ->
+  u_open (get_udp w s) = true -> Bool.eqb (negb (a_v6 (e_addr e))) (u_is_v4 (get_udp w s)) = true ->
+  ep_eqb (u_bound (get_udp w s)) ep_none = false ->
+  udp_bind_user v s e w = (EC_INVALID_ARGUMENT, w).
+Proof. intros D O F B. unfold udp_bind_user. rewrite D, O, F, B. reflexivity. Qed.
+
+Theorem second_bind_is_refused_tcp v s e w :
+  d23_single_bind v = true ->
+  t_open (get_tcp w s) = true -> Bool.eqb (negb (a_v6 (e_addr e))) (t_is_v4 (get_tcp w s)) = true ->
+  ep_eqb (t_bound (get_tcp w s)) ep_none = false ->
+  tcp_bind_user v s e w = (EC_INVALID_ARGUMENT, w).
+Proof. intros D O F B. unfold tcp_bind_user. rewrite D, O, F, B. reflexivity. Qed.
+
+Theorem first_bind_is_the_registry_bind v s e w :
+  ep_eqb (u_bound (get_udp w s)) ep_none = true -> udp_bind_user v s e w = udp_bind s e w.
+Proof. intros B. unfold udp_bind_user. rewrite B. cbn [negb]. rewrite !andb_false_r. reflexivity. Qed.
